@@ -376,7 +376,10 @@ def unittwist(S, tol=10):
     w = S[3:6]
 
     if iszerovec(w):
+        # irrotational: a rotational part below the zero threshold is exactly zero in the result, so that
+        # the result is a unit twist for isunittwist and a fixed point of this function
         th = norm(v)
+        S = np.r_[v, 0, 0, 0]
     else:
         th = norm(w)
 
@@ -421,7 +424,10 @@ def unittwist_norm(S, tol=10):
     w = S[3:6]
 
     if iszerovec(w):
+        # irrotational: a rotational part below the zero threshold is exactly zero in the result, so that
+        # the result is a unit twist for isunittwist and a fixed point of this function
         th = norm(v)
+        S = np.r_[v, 0, 0, 0]
     else:
         th = norm(w)
 
@@ -455,7 +461,10 @@ def unittwist2(S):
     w = S[2]
 
     if iszero(w):
+        # irrotational: a rotational part below the zero threshold is exactly zero in the result, so that
+        # the result is a unit twist for isunittwist2 and a fixed point of this function
         th = norm(v)
+        S = np.r_[v, 0]
     else:
         th = abs(w)
 
@@ -488,7 +497,10 @@ def unittwist2_norm(S):
     w = S[2]
 
     if iszero(w):
+        # irrotational: a rotational part below the zero threshold is exactly zero in the result, so that
+        # the result is a unit twist for isunittwist2 and a fixed point of this function
         th = norm(v)
+        S = np.r_[v, 0]
     else:
         th = abs(w)
 
